@@ -78,16 +78,21 @@ func (w *removingWalker) doList(t *schema.List) (errs ValidationErrors) {
 		// Ignore error because we have already validated this list
 		pe, _ := listItemToPathElement(w.allocator, w.schema, t, item)
 		path, _ := fieldpath.MakePath(pe)
+		subset := w.toRemove.WithPrefix(pe)
 		// save items on the path when we shouldExtract
 		// but ignore them when we are removing (i.e. !w.shouldExtract)
 		if w.toRemove.Has(path) {
-			if w.shouldExtract {
+			if !w.shouldExtract {
+				continue
+			}
+			// an item that is selected together with fields beneath it (as
+			// WithAppendKeyFields does for its keys) is extracted once, below
+			if subset.Empty() {
 				newItems = append(newItems, removeItemsWithSchema(item, w.toRemove, w.schema, t.ElementType, w.shouldExtract).Unstructured())
-			} else {
 				continue
 			}
 		}
-		if subset := w.toRemove.WithPrefix(pe); !subset.Empty() {
+		if !subset.Empty() {
 			item = removeItemsWithSchema(item, subset, w.schema, t.ElementType, w.shouldExtract)
 		} else {
 			// don't save items not on the path when we shouldExtract.
